@@ -3,7 +3,7 @@ CONSTANTS
   Export = ""
   MaxOps = 7
   GuardRelease = TRUE
-  Limits = {1, 2}
+  Limits = {0, 1, 2}
 VIEW view
 INVARIANTS NeverOver CountsExact
 CHECK_DEADLOCK FALSE
